@@ -3,6 +3,9 @@
 // C06 / C08 / C09 / C13; nothing here is executable code of /repo.
 // ---------------------------------------------------------------------------------------------
 pub open spec fn ext(a: Seq<SemanticErrorKind>, b: Seq<SemanticErrorKind>) -> bool { a.len() <= b.len() && b.take(a.len() as int) == a }
+pub open spec fn ext_tr(a: Seq<context::Ev>, b: Seq<context::Ev>) -> bool { a.len() <= b.len() && b.take(a.len() as int) == a }
+/// the analyser only ever appends: diagnostics and symbol-table events
+pub open spec fn grows(c0: Context, c1: Context) -> bool { ext(c0.errs(), c1.errs()) && ext_tr(c0.trace(), c1.trace()) }
 pub open spec fn cond1(c: bool, k: SemanticErrorKind) -> Seq<SemanticErrorKind> { if c { seq![k] } else { Seq::empty() } }
 
 // ---- C06: operators map to the graph operator of the same meaning ------------------------------
@@ -106,7 +109,18 @@ pub broadcast proof fn lemma_ext_then_push(a: Seq<SemanticErrorKind>, b: Seq<Sem
 pub broadcast proof fn lemma_ext_then_add(a: Seq<SemanticErrorKind>, b: Seq<SemanticErrorKind>, c: Seq<SemanticErrorKind>)
     requires #[trigger] ext(a, b), ensures ext(a, #[trigger] (b + c))
 { assert((b + c).take(a.len() as int) =~= b.take(a.len() as int)); }
-pub broadcast group sema_lemmas { lemma_ext_then_push, lemma_ext_then_add, lemma_ext_add2, lemma_ext_refl, lemma_ext_push, lemma_ext_add, lemma_ext_trans, lemma_add_empty, lemma_add_one }
+pub broadcast proof fn lemma_extt_refl(a: Seq<context::Ev>) ensures #[trigger] ext_tr(a, a) { assert(a.take(a.len() as int) =~= a); }
+pub broadcast proof fn lemma_extt_then_push(a: Seq<context::Ev>, b: Seq<context::Ev>, k: context::Ev)
+    requires #[trigger] ext_tr(a, b), ensures ext_tr(a, #[trigger] b.push(k))
+{ assert(b.push(k).take(a.len() as int) =~= b.take(a.len() as int)); }
+pub broadcast proof fn lemma_extt_trans(a: Seq<context::Ev>, b: Seq<context::Ev>, c: Seq<context::Ev>)
+    requires #[trigger] ext_tr(a, b), #[trigger] ext_tr(b, c), ensures ext_tr(a, c)
+{ assert(c.take(a.len() as int) =~= c.take(b.len() as int).take(a.len() as int)); }
+pub broadcast proof fn lemma_extt_push(a: Seq<context::Ev>, k: context::Ev) ensures #[trigger] ext_tr(a, a.push(k)) { assert(a.push(k).take(a.len() as int) =~= a); }
+pub broadcast proof fn lemma_ext_drop_last(b: Seq<SemanticErrorKind>)
+    requires b.len() >= 1, ensures ext(#[trigger] b.drop_last(), b)
+{ assert(b.take(b.len() - 1) =~= b.drop_last()); }
+pub broadcast group sema_lemmas { lemma_ext_drop_last, lemma_extt_push, lemma_extt_refl, lemma_extt_then_push, lemma_extt_trans, lemma_ext_then_push, lemma_ext_then_add, lemma_ext_add2, lemma_ext_refl, lemma_ext_push, lemma_ext_add, lemma_ext_trans, lemma_add_empty, lemma_add_one }
 
 /// C13, gate calls.  `mid` is the analyser state after the operands and parameters were analysed
 /// (their own diagnostics come first); then the name is resolved once (UndefGateError if that
@@ -122,4 +136,41 @@ pub open spec fn call_post(c0: Context, mid: Context, c1: Context, name: Seq<cha
     &&& lookup_type(mid, name) is SubroutineDef ==>
             c1.errs() == (mid.errs() + undef_diag(mid, name, SemanticErrorKind::UndefVarError))
                          + cond1(lookup_type(mid, name)->SubroutineDef_0.num_params != n_args, SemanticErrorKind::NumDefParamsError)
+}
+
+// ---- C08: the declaration rule ---------------------------------------------------------------------
+/// KF C08-decl-silent: a const (or carve-out) value of another tower type is stored without cast and
+/// without diagnostic (`const int[16] n = 5; int[8] y = n;`, `int[8] y = 1 + 2;`)
+pub open spec fn co_decl_silent(t: Type, v: asg::TExpr) -> bool {
+    !(v.expression is Literal) && ((types::in_tower(t) && types::in_tower(v.ty) && types::sp_is_const(v.ty)) || types::co_shape(t, v.ty))
+}
+pub open spec fn type_diag_last(errs: Seq<SemanticErrorKind>) -> bool { errs.len() > 0 && errs.last() is IncompatibleTypesError }
+/// from the statement: the stored initializer has the declared type up to const, or is an explicit
+/// cast to exactly the declared type, or a type diagnostic was reported
+pub open spec fn decl_ok(t: Type, v: asg::TExpr, errs: Seq<SemanticErrorKind>) -> bool {
+    value_conforms(v, t) || type_diag_last(errs) || co_decl_silent(t, v)
+}
+
+// ---- C08 / C13: the assignment rule -----------------------------------------------------------------
+/// KF C08-assign-int-literal-silent: an integer literal assigned to a variable that is not `uint`
+/// is stored without cast and without diagnostic, whatever the variable's type (`duration d; d = 1;`)
+pub open spec fn co_assign_int_literal(t: Type, v: asg::TExpr) -> bool {
+    v.expression is Literal && v.expression->Literal_0 is Int && !(t is UInt)
+}
+/// the stored value has exactly the variable's type, or is an explicit cast to exactly it
+pub open spec fn assign_value_ok(t: Type, v: asg::TExpr) -> bool {
+    v.ty == t || (v.expression is Cast && v.ty == t && v.expression->Cast_0.typ == t) || co_assign_int_literal(t, v)
+}
+pub open spec fn is_type_diag(k: SemanticErrorKind) -> bool { k is IncompatibleDimensionError || k is CastError || k is IncompatibleTypesError }
+/// `mid`: the state after the right-hand side was analysed; then the target is resolved (once), at
+/// most one type diagnostic follows, and MutateConstError is appended iff the target is a const symbol
+pub open spec fn assign_post(c0: Context, mid: Context, c1: Context, name: Seq<char>, td: Seq<SemanticErrorKind>, lv: asg::LValue, rv: asg::TExpr) -> bool {
+    let resolved = mid.resolve(name) is Some;
+    let ty = lookup_type(mid, name);
+    &&& grows(c0, mid)
+    &&& lv == asg::LValue::Identifier(lookup_id(mid, name))
+    &&& td.len() <= 1 && (td.len() == 1 ==> is_type_diag(td[0]))
+    &&& c1.errs() == ((mid.errs() + undef_diag(mid, name, SemanticErrorKind::UndefVarError)) + td)
+                     + cond1(resolved && types::sp_is_const(ty), SemanticErrorKind::MutateConstError)
+    &&& (resolved && td.len() == 0) ==> assign_value_ok(ty, rv)
 }
